@@ -23,7 +23,7 @@ the tie as broken (DESIGN 1.2(c)).  Nothing is normalised except
 The output carries no line numbers, so that edits which do not change the AST of the translated
 functions leave the generated file byte-identical (and nothing is rebuilt).
 """
-import ast, importlib, importlib.util, os, sys
+import ast, copy, importlib, importlib.util, os, sys
 
 ROOT = os.path.dirname(os.path.dirname(os.path.abspath(__file__)))
 GEN = os.path.join(ROOT, "coq", "Gen")
@@ -43,10 +43,10 @@ def fail(node, why):
 
 BUILTINS = {"len", "ord", "min", "max", "isinstance"}            # PyMini.builtin
 EXNS = {"IndexError": "IndexError", "TypeError": "TypeError", "ValueError": "ValueError",
-        "AttributeError": "AttributeError", "KeyError": "KeyError"}
+        "AttributeError": "AttributeError", "KeyError": "KeyError", "Exception": "ExcOther"}
 BINOPS = {ast.Add: "Add", ast.Sub: "Sub", ast.Mult: "Mult"}
 CMPOPS = {ast.Eq: "Eq", ast.NotEq: "NotEq", ast.Lt: "Lt", ast.LtE: "LtE", ast.Gt: "Gt", ast.GtE: "GtE",
-          ast.Is: "Is", ast.IsNot: "IsNot"}
+          ast.Is: "Is", ast.IsNot: "IsNot", ast.In: "CmpIn", ast.NotIn: "CmpNotIn"}
 
 
 def cstr(s):
@@ -66,7 +66,108 @@ def clist(items):
 
 # ----------------------------------------------------------------------------------------------
 
-def function_kind(fn, in_class):
+class ClosureMarker(ast.expr):
+    """stands for the function object of a lambda-lifted nested def"""
+    _fields = ()
+
+    def __init__(self, q, captured, lineno):
+        super().__init__()
+        self.q, self.captured, self.lineno = q, captured, lineno
+
+
+def lift_nested(fn, cls):
+    """nested `def g(*a, **k)` directly in the body of method fn -> (fn', [(g, lifted FunctionDef)]).
+    The lifted function takes the captured variables (parameters of fn that neither function ever
+    assigns; `self` first) and then *a, **k as ordinary parameters holding a tuple and a dict."""
+    nested = [n for n in fn.body if isinstance(n, (ast.FunctionDef, ast.AsyncFunctionDef))]
+    if not nested:
+        return fn, []
+    if cls is None:
+        fail(nested[0], "nested definition outside a method")
+    params = [a.arg for a in fn.args.args]
+    outer_stores = {n.id for st in fn.body if st not in nested for n in ast.walk(st)
+                    if isinstance(n, ast.Name) and isinstance(n.ctx, (ast.Store, ast.Del))}
+    fn2 = copy.copy(fn)
+    fn2.body = []
+    lifted = []
+    for st in fn.body:
+        if st not in nested:
+            fn2.body.append(st)
+            continue
+        g = st
+        if isinstance(g, ast.AsyncFunctionDef) or g.decorator_list:
+            fail(g, "nested async / decorated definition")
+        a = g.args
+        if a.args or a.posonlyargs or a.kwonlyargs or a.defaults or a.kw_defaults:
+            fail(g, "nested definition with parameters other than *args / **kwargs")
+        own = [x.arg for x in (a.vararg, a.kwarg) if x is not None]
+        inner_stores = {n.id for n in ast.walk(g) if isinstance(n, ast.Name) and isinstance(n.ctx, (ast.Store, ast.Del))}
+        for n in ast.walk(g):
+            if n is not g and isinstance(n, (ast.FunctionDef, ast.AsyncFunctionDef, ast.Lambda, ast.ClassDef,
+                                             ast.Global, ast.Nonlocal)):
+                fail(n, "definition / scope declaration inside a nested definition")
+        loads = []
+        for n in ast.walk(g):
+            if isinstance(n, ast.Name) and isinstance(n.ctx, ast.Load) and n.id in params and n.id not in own \
+                    and n.id not in loads:
+                loads.append(n.id)
+        captured = [x for x in params if x in loads]            # in parameter order: self first
+        for x in captured:
+            if x in outer_stores or x in inner_stores:
+                fail(g, f"captured variable {x} is assigned (a closure captures the variable, not its value)")
+        if g.name in params or g.name in outer_stores:
+            fail(g, "name of the nested definition is bound elsewhere too")
+        if "self" not in captured:
+            fail(g, "nested definition that does not use self")
+        new = ast.FunctionDef(
+            name=g.name, body=g.body, decorator_list=[], returns=None, type_comment=None,
+            args=ast.arguments(posonlyargs=[], args=[ast.arg(arg=x) for x in captured + own], vararg=None,
+                               kwonlyargs=[], kw_defaults=[], kwarg=None, defaults=[]))
+        new.lineno = g.lineno
+        lifted.append((g.name, new))
+        mark = ast.Assign(targets=[ast.Name(id=g.name, ctx=ast.Store())],
+                          value=ClosureMarker([cls, fn.name, g.name], captured, g.lineno))
+        mark.lineno = g.lineno
+        fn2.body.append(mark)
+    return fn2, lifted
+
+
+def split_await(fn):
+    """async def with exactly one `x = await <call>` as a top-level statement ->
+    (part 1: up to the await, sync; part 2 `$resume`: the rest, taking the parameters, the locals bound
+    before the await and x).  None for a plain def."""
+    if not isinstance(fn, ast.AsyncFunctionDef):
+        return None
+    awaits = [n for n in ast.walk(fn) if isinstance(n, (ast.Await, ast.AsyncFor, ast.AsyncWith))]
+    tops = [i for i, st in enumerate(fn.body)
+            if isinstance(st, ast.Assign) and len(st.targets) == 1 and isinstance(st.targets[0], ast.Name)
+            and isinstance(st.value, ast.Await)]
+    if len(awaits) != 1 or len(tops) != 1 or fn.body[tops[0]].value is not awaits[0] or fn.decorator_list:
+        fail(fn, "async def other than with exactly one top-level `x = await <call>`")
+    i = tops[0]
+    x = fn.body[i].targets[0].id
+    a = fn.args
+    if a.posonlyargs or a.vararg or a.kwonlyargs or a.kwarg or a.defaults or a.kw_defaults:
+        fail(fn, "async def with parameters other than plain ones")
+    params = [p.arg for p in a.args]
+    before = []
+    for st in fn.body[:i]:
+        for n in ast.walk(st):
+            if isinstance(n, ast.Name) and isinstance(n.ctx, ast.Store) and n.id not in params + before:
+                before.append(n.id)
+    if x in params + before:
+        fail(fn, "the awaited value is assigned to a name bound earlier")
+    mk = lambda name, args, body: ast.FunctionDef(
+        name=name, body=body, decorator_list=[], returns=None, type_comment=None,
+        args=ast.arguments(posonlyargs=[], args=[ast.arg(arg=v) for v in args], vararg=None, kwonlyargs=[],
+                           kw_defaults=[], kwarg=None, defaults=[]))
+    p1 = mk(fn.name, params, fn.body[:i + 1])
+    p2 = mk("$resume", params + before + [x], fn.body[i + 1:] or [ast.Pass()])
+    p1.lineno = p2.lineno = fn.lineno
+    return p1, p2
+
+
+def function_kind(fn, in_class, stateful=False):
     """KFunction / KMethod / KClassMethod / KProperty (printed as KMethod; read as `self.name`) /
     KProcedure (a method other than __init__ none of whose returns carries a value)"""
     if not in_class:
@@ -81,13 +182,16 @@ def function_kind(fn, in_class):
     rets = [n for n in ast.walk(fn) if isinstance(n, ast.Return)]
     if all(r.value is None or (isinstance(r.value, ast.Constant) and r.value.value is None) for r in rets):
         return "KProcedure"
-    return "KMethod"
+    return "KStateful" if stateful else "KMethod"
 
 
 class FunctionTranslator:
     """Translates one FunctionDef. `globals_ok(name, node)` validates a non-local name."""
 
-    def __init__(self, fn, in_class, globals_ok, cls_node=None, kinds=None):
+    def __init__(self, fn, in_class, globals_ok, cls_node=None, kinds=None, opts=None, kind=None):
+        self.opts = opts or {}
+        self.effects = set(self.opts.get("effects", ()))      # attributes of self holding objects outside the translation
+        self.dicts = set(self.opts.get("dicts", ()))          # attributes of self holding a dict
         self.fn = fn
         self.in_class = in_class
         self.cls_node = cls_node
@@ -101,7 +205,7 @@ class FunctionTranslator:
                             self.props.add(n.name)
                         elif isinstance(d, ast.Attribute) and d.attr in ("setter", "deleter", "getter"):
                             raise TranslateError(f"line {n.lineno}: property setter / deleter in the class")
-        self.kind = function_kind(fn, in_class)
+        self.kind = kind or function_kind(fn, in_class, bool(self.effects))
         self.receiver = fn.args.args[0].arg if (in_class and fn.args.args) else None
         self.stringio = self._stringio_locals(fn)
         if self.receiver == "self":
@@ -260,6 +364,9 @@ class FunctionTranslator:
             if not isinstance(e.ctx, ast.Load):
                 fail(e, "attribute in a non-load context")
             if isinstance(e.value, ast.Name) and e.value.id == "self" and self.receiver == "self" \
+                    and e.attr in self.effects:
+                fail(e, f"self.{e.attr} (an object outside the translation) is used other than for a recorded call")
+            if isinstance(e.value, ast.Name) and e.value.id == "self" and self.receiver == "self" \
                     and e.attr in self.props:
                 if self.kinds.get(e.attr) != "KProperty":
                     fail(e, f"self.{e.attr} is a property that is not among the translated functions")
@@ -321,6 +428,8 @@ class FunctionTranslator:
             if not isinstance(e.ctx, ast.Load):
                 fail(e, "tuple in a non-load context")
             return f"(ETuple {clist([E(x) for x in e.elts])})"
+        if isinstance(e, ClosureMarker):
+            return f"(EClosure {clist([cstr(x) for x in e.q])} {clist([cstr(x) for x in e.captured])})"
         if isinstance(e, ast.JoinedStr):
             parts = []
             for v in e.values:
@@ -393,15 +502,70 @@ class FunctionTranslator:
         out = []
         for s in stmts:
             t = self.stmt(s, ind)
-            if t is not None:
+            if isinstance(t, list):
+                out.extend(t)
+            elif t is not None:
                 out.append(t)
         pad = " " * ind
         if not out:
             return "[]"
         return "[\n" + ";\n".join(pad + "  " + t for t in out) + "\n" + pad + "]"
 
+    def effect_call(self, v):
+        """self.<F>.<m>(args, kw=..) with F an attribute holding an object outside the translation"""
+        if not (isinstance(v, ast.Call) and isinstance(v.func, ast.Attribute) and isinstance(v.func.value, ast.Attribute)
+                and isinstance(v.func.value.value, ast.Name) and v.func.value.value.id == "self"
+                and self.receiver == "self" and v.func.value.attr in self.effects):
+            return None
+        if any(isinstance(a, ast.Starred) for a in v.args) or any(k.arg is None for k in v.keywords):
+            fail(v, "*args / **kwargs in a recorded call")
+        if self.kind not in ("KProcedure", "KStateful"):
+            fail(v, "recorded call in a function whose run does not yield self")
+        args = clist([self.expr(a) for a in v.args])
+        kws = clist([f"({cstr(k.arg)}, {self.expr(k.value)})" for k in v.keywords])
+        return f"{cstr(v.func.value.attr)} {cstr(v.func.attr)} {args} {kws}"
+
     def stmt(self, s, ind):
         E = self.expr
+        # ---- recorded calls on self.<effect attribute> and on callables from outside
+        if isinstance(s, ast.Expr) and self.effect_call(s.value):
+            return f"SSelfEffect None {self.effect_call(s.value)} false"
+        if isinstance(s, ast.Return) and s.value is not None and self.effect_call(s.value):
+            if self.kind != "KStateful":
+                fail(s, "return of a recorded call outside a stateful method")
+            return [f"SSelfEffect (Some {cstr('$ret')}) {self.effect_call(s.value)} false",
+                    f"SReturnState (Some (EName {cstr('$ret')}))"]
+        if isinstance(s, ast.Assign) and len(s.targets) == 1 and isinstance(s.targets[0], ast.Name):
+            x = s.targets[0].id
+            if self.effect_call(s.value):
+                return f"SSelfEffect (Some {self.local(x)}) {self.effect_call(s.value)} false"
+            if isinstance(s.value, ast.Await):
+                ec = self.effect_call(s.value.value)
+                if not ec or self.kind != "KStateful" or s is not self.fn.body[-1]:
+                    fail(s, "await of something other than a recorded call / not at the split point")
+                return [f"SSelfEffect (Some {self.local(x)}) {ec} true", f"SSuspend {self.local(x)}"]
+        if isinstance(s, ast.Expr) and isinstance(s.value, ast.Call) and isinstance(s.value.func, ast.Name):
+            v = s.value
+            if (v.func.id in self.locals and len(v.args) == 1 and isinstance(v.args[0], ast.Starred)
+                    and isinstance(v.args[0].value, ast.Name) and len(v.keywords) == 1 and v.keywords[0].arg is None
+                    and isinstance(v.keywords[0].value, ast.Name)):
+                if self.kind not in ("KProcedure", "KStateful"):
+                    fail(s, "recorded call in a function whose run does not yield self")
+                return f"SCallbackEffect {E(v.func)} {E(v.args[0].value)} {E(v.keywords[0].value)}"
+        # ---- dict attributes of self
+        if isinstance(s, ast.Assign) and len(s.targets) == 1 and isinstance(s.targets[0], ast.Subscript):
+            t = s.targets[0]
+            if (isinstance(t.value, ast.Attribute) and isinstance(t.value.value, ast.Name) and t.value.value.id == "self"
+                    and self.receiver == "self" and t.value.attr in self.dicts and not isinstance(t.slice, ast.Slice)
+                    and self.kind in ("KProcedure", "KStateful")):
+                return f"SSelfItemSet {cstr(t.value.attr)} {E(t.slice)} {E(s.value)}"
+        if isinstance(s, ast.Expr) and isinstance(s.value, ast.Call) and isinstance(s.value.func, ast.Attribute):
+            f = s.value.func
+            if (isinstance(f.value, ast.Attribute) and isinstance(f.value.value, ast.Name) and f.value.value.id == "self"
+                    and self.receiver == "self" and f.value.attr in self.dicts and f.attr == "setdefault"
+                    and not s.value.keywords and not any(isinstance(a, ast.Starred) for a in s.value.args)
+                    and self.kind in ("KProcedure", "KStateful")):
+                return f"SSelfFieldCall {cstr(f.value.attr)} {cstr(f.attr)} {clist([E(a) for a in s.value.args])}"
         if isinstance(s, ast.Expr):
             if isinstance(s.value, ast.Constant):
                 return None                       # docstring / bare constant: no effect
@@ -416,7 +580,7 @@ class FunctionTranslator:
                 if recv == "self" and self.receiver == "self" and self.kinds.get(m) == "KProcedure":
                     if not plain:
                         fail(s, "*args / **kwargs in a call")
-                    if self.kind not in ("KProcedure",) and self.fn.name != "__init__":
+                    if self.kind not in ("KProcedure", "KStateful") and self.fn.name != "__init__":
                         fail(s, "a method that returns a value calls a procedure on self (the change would be lost)")
                     args = clist([E(a) for a in v.args])
                     kws = clist([f"({cstr(k.arg)}, {E(k.value)})" for k in v.keywords])
@@ -454,6 +618,8 @@ class FunctionTranslator:
         if isinstance(s, ast.Return):
             if self.kind == "KProcedure":
                 return "SReturnSelf"              # function_kind: every return of a procedure is bare / None
+            if self.kind == "KStateful":
+                return "SReturnState None" if s.value is None else f"SReturnState (Some {E(s.value)})"
             return "SReturn None" if s.value is None else f"SReturn (Some {E(s.value)})"
         if isinstance(s, ast.For):
             it = s.iter
@@ -598,7 +764,7 @@ def find_function(tree, cls, name):
     return fs[0]
 
 
-def translate_module(modname, functions, global_table, out_name, reflect_checks):
+def translate_module(modname, functions, global_table, out_name, reflect_checks, opts=None):
     """functions: [(class-or-None, name)].  global_table: name -> predicate(binding) saying that the
     module-level binding of `name` is the one PyMini gives a meaning to."""
     path = find_source(modname)
@@ -638,21 +804,38 @@ def translate_module(modname, functions, global_table, out_name, reflect_checks)
         if not ok(b):
             fail(node, f"global name {name!r} is bound to {b!r}, not to what the table expects")
 
+    stateful = bool((opts or {}).get("effects"))
     kinds = {}
     for cls, name in functions:
-        kinds.setdefault(cls, {})[name] = function_kind(find_function(tree, cls, name), cls is not None)
+        fn = find_function(tree, cls, name)
+        k = "KStateful" if isinstance(fn, ast.AsyncFunctionDef) else function_kind(fn, cls is not None, stateful)
+        kinds.setdefault(cls, {})[name] = k
     defs, idents = [], []
     for cls, name in functions:
         fn = find_function(tree, cls, name)
-        ident = "f_" + (cls + "_" if cls and len(classes) > 1 else "") + name.strip("_")
-        qual = ([cls] if cls else []) + [name]
+        base = "f_" + (cls + "_" if cls and len(classes) > 1 else "") + name.strip("_")
         cnode = None
         if cls is not None:
             cnode = [n for n in tree.body if isinstance(n, ast.ClassDef) and n.name == cls][0]
             if cnode.decorator_list:
                 raise TranslateError(f"class {cls} is decorated")
-        defs.append(FunctionTranslator(fn, cls is not None, globals_ok, cnode, kinds.get(cls)).translate(qual, ident))
-        idents.append(ident)
+        # work items: the function itself; the continuation after its single await; its nested definitions
+        items = []
+        parts = split_await(fn)
+        if parts is not None:
+            if cls is None:
+                raise TranslateError(f"async function {name} outside a class")
+            items.append(([cls, name], base, parts[0], "KStateful"))
+            items.append(([cls, name, "$resume"], base + "_resume", parts[1], None))
+        else:
+            fn2, lifted = lift_nested(fn, cls)
+            items.append((([cls] if cls else []) + [name], base, fn2, None))
+            for gname, g in lifted:
+                items.append(([cls, name, gname], base + "_" + gname.strip("_"), g, None))
+        for qual, ident, node, kind in items:
+            tr = FunctionTranslator(node, cls is not None, globals_ok, cnode, kinds.get(cls), opts, kind)
+            defs.append(tr.translate(qual, ident))
+            idents.append(ident)
     if len(set(idents)) != len(idents):
         raise TranslateError("identifier clash in the generated file")
     reflect_checks()
@@ -889,7 +1072,45 @@ def gen_doc():
         raise
 
 
-GENERATORS = {"codec": gen_codec, "exceptions": gen_exceptions, "uris": gen_uris, "doc": gen_doc}
+# ----------------------------------------------------------------------------------------------
+# (E) progress.py
+
+def _reflect_progress():
+    t = importlib.import_module("lsprotocol.types")
+    m = importlib.import_module("pygls.progress")
+    import attr, concurrent.futures
+    if t.PROGRESS != "$/progress" or t.WINDOW_WORK_DONE_PROGRESS_CREATE != "window/workDoneProgress/create":
+        raise TranslateError("PROGRESS / WINDOW_WORK_DONE_PROGRESS_CREATE are not the strings PyMini.global_const gives")
+    if [a.name for a in attr.fields(t.ProgressParams)] != ["token", "value"]:
+        raise TranslateError("fields of ProgressParams")
+    if [a.name for a in attr.fields(t.WorkDoneProgressCreateParams)] != ["token"]:
+        raise TranslateError("fields of WorkDoneProgressCreateParams")
+    if m.Future is not concurrent.futures.Future or m.ProgressParams is not t.ProgressParams \
+            or m.PROGRESS is not t.PROGRESS:
+        raise TranslateError("names imported by pygls.progress")
+
+
+PROGRESS_FUNCTIONS = [("Progress", n) for n in (
+    "_check_token_registered", "_register_token", "create", "create_async", "begin", "report", "end")]
+
+
+def gen_progress():
+    ty = lambda n: _is_from("lsprotocol.types", n)
+    try:
+        return translate_module(
+            "pygls.progress", PROGRESS_FUNCTIONS,
+            {"Future": _is_from("concurrent.futures", "Future"), "PROGRESS": ty("PROGRESS"),
+             "WINDOW_WORK_DONE_PROGRESS_CREATE": ty("WINDOW_WORK_DONE_PROGRESS_CREATE"),
+             "ProgressParams": ty("ProgressParams"),
+             "WorkDoneProgressCreateParams": ty("WorkDoneProgressCreateParams")},
+            "AstProgress.v", _reflect_progress, opts={"effects": {"_lsp"}, "dicts": {"tokens"}})
+    except Exception as e:
+        poison("AstProgress.v", repr(e))
+        raise
+
+
+GENERATORS = {"codec": gen_codec, "exceptions": gen_exceptions, "uris": gen_uris, "doc": gen_doc,
+              "progress": gen_progress}
 
 if __name__ == "__main__":
     which = sys.argv[1:] or ["codec"]
